@@ -26,6 +26,8 @@ def _maybe_fault(name: str, point: int):
     p = PLAN
     if p.get("task") == name and p.get("point") == point and not FIRED:
         FIRED.append((name, point, p["kind"]))
+        if CLUSTER[0] is not None and not REAL[0]:
+            FIRED_AT.append(CLUSTER[0].sched.now_ns)
         if p["kind"] == "raise":
             raise RuntimeError(f"injected failure in {name} at {point}")
         if p["kind"] == "exit":
@@ -48,6 +50,29 @@ def f_single(name: str, *args, **kwargs):
     return (name, tuple(args), tuple(sorted(kwargs.items())))
 
 
+LATENCY_BOUND_S = 120.0  # a failure must end the run within this many virtual seconds, whatever else is running
+SLOW_S = 300.0  # duration of the long task of the *slow jobs, in (virtual) seconds
+FIRED_AT: list = []  # virtual instant at which the injected fault fired
+
+
+def _vsleep(seconds: float) -> None:
+    if REAL[0]:
+        import time
+
+        time.sleep(min(seconds, 20.0))
+        return
+    S = CLUSTER[0].sched if CLUSTER[0] is not None else None
+    if S is None or S.current is None:
+        return  # reference evaluation outside any virtual process: no time passes
+    S.block(lambda: False, S.now_ns + int(seconds * 1e9))
+
+
+def f_slow(name: str, *args, **kwargs):
+    """a long task that has nothing to do with the injected fault"""
+    _vsleep(SLOW_S)
+    return (name, tuple(args), tuple(sorted(kwargs.items())))
+
+
 def f_gen(name: str, n: int, *args, **kwargs):
     for i in range(n):
         _maybe_fault(name, i)
@@ -56,8 +81,13 @@ def f_gen(name: str, n: int, *args, **kwargs):
 
 
 def make_job(kind: str) -> JobInstance:
+    slow = kind.endswith("slow")
+    kind = kind[:-4] if slow else kind
+
     def task(name, outs, nargs):
         f = functools.partial(f_single, name) if len(outs) == 1 else functools.partial(f_gen, name, len(outs))
+        if slow and name == "t3":
+            f = functools.partial(f_slow, name)
         return TaskInstance(definition=TaskDefinition(func=TaskDefinition.func_enc(f), entrypoint="", environment=[], input_schema={}, output_schema={o: "Any" for o in outs}),
                             static_input_kw={}, static_input_ps={str(nargs): f"s-{name}"})
 
@@ -97,6 +127,7 @@ def execute(cfg: dict, fault: dict | None, deviations: dict | None = None, secon
     job = make_job(cfg["job"])
     PLAN.clear()
     del FIRED[:]
+    del FIRED_AT[:]
     fired_step = [None]
 
     def on_cluster(cl):
@@ -111,12 +142,47 @@ def execute(cfg: dict, fault: dict | None, deviations: dict | None = None, secon
                             cl.sched.kill(victims[0])
                             if fired_step[0] is None:
                                 fired_step[0] = step
+                                FIRED_AT.append(cl.sched.now_ns)
             cl.sched.step_hook = hook
 
     if fault and fault["type"] == "body":
         PLAN.update(fault)
-    r = vcluster.run_cluster(job, cfg["hosts"], cfg["workers"], horizon_s=HORIZON_S, max_steps=60_000, on_cluster=on_cluster,
-                             deviations={int(k): v for k, v in (deviations or {}).items()})
+    # the data server's reads of a dataset it is asked to send: counted per process, and the planned one fails
+    import cascade.executor.data_server as ds_mod
+
+    real_client = common.seam(ds_mod, "shm_client")
+    ds_gets: dict = {}
+
+    class ClientProxy:
+        def __getattr__(self, name):
+            return getattr(real_client, name)
+
+        def get(self, *a, **k):
+            cur = CLUSTER[0].sched.current if CLUSTER[0] is not None else None
+            name = cur.name if cur is not None else "?"
+            n = ds_gets.get(name, 0)
+            ds_gets[name] = n + 1
+            if fault and fault["type"] == "dsread" and fault["proc"] == name and fault["nth"] == n:
+                FIRED.append(("dsread", name, n))
+                FIRED_AT.append(CLUSTER[0].sched.now_ns)
+                raise ValueError("injected: dataset unreadable")
+            return real_client.get(*a, **k)
+
+    ds_mod.shm_client = ClientProxy()
+    try:
+        r = _run(job, cfg, on_cluster, deviations)
+    finally:
+        ds_mod.shm_client = real_client
+    return _record(r, job, cfg, fired_step, ds_gets)
+
+
+def _run(job, cfg, on_cluster, deviations):
+    return vcluster.run_cluster(job, cfg["hosts"], cfg["workers"], horizon_s=HORIZON_S, max_steps=60_000, on_cluster=on_cluster,
+                             deviations={int(k): v for k, v in (deviations or {}).items()},
+                             wind_down_s=(SLOW_S + 100.0) if cfg["job"].endswith("slow") else 30.0)
+
+
+def _record(r, job, cfg, fired_step, ds_gets):
     cl = r.pop("cluster")
     fired = bool(FIRED)
     PLAN.clear()  # the reference evaluation below must run fault-free
@@ -128,7 +194,8 @@ def execute(cfg: dict, fault: dict | None, deviations: dict | None = None, secon
         "fired": fired or fired_step[0] is not None,
         "procs": [(p.name, p.kind) for p in cl.sched.procs], "run_started_step": r.get("run_started_step"),
         "choice_widths": list(r.get("choice_widths", [])),
-        "wrong": None,
+        "wrong": None, "ds_gets": dict(ds_gets),
+        "latency_s": None if not FIRED_AT or r.get("ended_at") is None else round((r["ended_at"] - FIRED_AT[0]) / 1e9, 1),
     }
     if r["outputs"] is not None:
         bad = [repr(k) for k in job.ext_outputs if r["outputs"].get(k) != exp[k]]
@@ -147,11 +214,16 @@ def judge(cfg: dict, fault: dict | None, rec: dict) -> list:
         victim = "no fault"
     elif fault["type"] == "body":
         victim = f"task body {fault['kind']}" + (" before any output" if fault["point"] == 0 else " after some/all outputs")
+    elif fault["type"] == "dsread":
+        victim = "data server cannot read a dataset it is asked to send"
     else:
         victim = f"{fault['proc'].split(':')[0]} process killed"
     if rec["phase1"] != "done":
         out.append(({"monitor": "run_hangs", "cause": f"{victim}: controller still waiting after {HORIZON_S:.0f} virtual seconds"}, f"{rp}: {rec}", rp))
         return out
+    if cfg["job"].endswith("slow") and fault is not None and not rec["returned"] and rec.get("latency_s") is not None and rec["latency_s"] > LATENCY_BOUND_S:
+        out.append(({"monitor": "failure_reported_late", "cause": f"{victim}: the run ended only {LATENCY_BOUND_S:.0f}+ virtual seconds after the failure (it waited for an unrelated long task)"},
+                    f"{rp}: ended {rec['latency_s']} s after the fault fired", rp))
     if rec["wrong"]:
         out.append(({"monitor": "wrong_value", "cause": f"{victim}: run returned a wrong or missing value"}, f"{rp}: {rec['wrong']}", rp))
     if fault is None and not rec["returned"]:
@@ -175,6 +247,9 @@ def config_cases(cfg: dict) -> list:
         # the property speaks about points of a *run*: kills start once every executor registered and run() began
         for s in range(base["run_started_step"] + 1, base["steps"] + 1, stride):
             faults.append({"type": "kill-proc", "proc": name, "step": s})
+    for name, n in sorted(base.get("ds_gets", {}).items()):
+        for k in range(n):
+            faults.append({"type": "dsread", "proc": name, "nth": k})
     return [(cfg, f, None) for f in faults], base
 
 
@@ -186,8 +261,10 @@ def run_case(arg):
 
 def run(ctx):
     cfgs = ctx.pick(
-        [{"job": "chain2", "hosts": 1, "workers": 1}, {"job": "chain2", "hosts": 2, "workers": 1}, {"job": "fork3", "hosts": 1, "workers": 2, "stride": 2}],
-        [{"job": j, "hosts": h, "workers": w} for j in ("chain2", "fork3", "diamond") for (h, w) in ((1, 1), (1, 2), (2, 1), (2, 2))],
+        [{"job": "chain2", "hosts": 1, "workers": 1}, {"job": "chain2", "hosts": 2, "workers": 1}, {"job": "fork3", "hosts": 1, "workers": 2, "stride": 2},
+         {"job": "fork3slow", "hosts": 1, "workers": 2, "stride": 40}],
+        [{"job": j, "hosts": h, "workers": w} for j in ("chain2", "fork3", "diamond") for (h, w) in ((1, 1), (1, 2), (2, 1), (2, 2))]
+        + [{"job": "fork3slow", "hosts": 1, "workers": 2, "stride": 10}, {"job": "diamondslow", "hosts": 2, "workers": 2, "stride": 25}],
     )
     evaluations = 0
     fired = set()
@@ -200,7 +277,7 @@ def run(ctx):
         for fault, rec, viols in res:
             evaluations += 1
             if rec["fired"]:
-                fired.add((cfg["job"], cfg["hosts"], cfg["workers"], fault["type"], fault.get("task") or fault.get("proc"), fault.get("point") if fault["type"] == "body" else fault["step"], fault.get("kind")))
+                fired.add((cfg["job"], cfg["hosts"], cfg["workers"], fault["type"], fault.get("task") or fault.get("proc"), fault.get("point") if fault["type"] == "body" else fault.get("step", fault.get("nth")), fault.get("kind")))
             outcome = "hang" if rec["phase1"] != "done" else ("returned" if rec["returned"] else "raised")
             histogram[outcome] = histogram.get(outcome, 0) + 1
             for sig, msg, rp in viols:
@@ -216,7 +293,7 @@ def run(ctx):
     ctx.coverage["real_process_validations"] = real
     ctx.coverage.update(
         evaluations=evaluations, distinct_nontrivial=len(fired), exhaustive=all("stride" not in c for c in cfgs), outcomes=histogram,
-        rule="per (job, cluster shape): every task x every body point (before the first output, after k of N outputs, after the last) x {raise, sys.exit(3), sys.exit() with status 0, kill}; every helper process (worker, data server, shm server) x every scheduler step of the fault-free default schedule (stride given per config). Non-trivial = the fault actually fired before the run ended (distinct by victim x point x kind)",
+        rule="per (job, cluster shape): every task x every body point (before the first output, after k of N outputs, after the last) x {raise, sys.exit(3), sys.exit() with status 0, kill}; every helper process (worker, data server, shm server) x every scheduler step of the fault-free default schedule (stride given per config); every read a data server performs of a dataset it is asked to send, failing. Non-trivial = the fault actually fired before the run ended (distinct by victim x point x kind)",
         configs=cfgs, horizon_virtual_s=HORIZON_S,
     )
     ctx.assume("default schedule (first ready process, timers only when nothing else is enabled); one fault per execution",
